@@ -3,6 +3,7 @@ package checks
 import (
 	"errors"
 	"fmt"
+	"math/big"
 	"sort"
 	"strings"
 
@@ -134,6 +135,15 @@ func catalogue(msgs []recMsg, honestCount int) []fault {
 				}
 			}
 		}
+		// crafted deviations: values recomputed by the deviating party so that a weaker check would pass
+		if !m.bcast && m.to != "" {
+			if mm, ok := root.(map[interface{}]interface{}); ok {
+				if b, ok := mm["F_li"].([]byte); ok && len(b) == 32 {
+					fs = append(fs, fault{m.round, false, m.to, "/F_li", "crafted:own-polynomial-at-zero+empty-recipient", "p2p"})
+					fs = append(fs, fault{m.round, false, m.to, "/F_li", "crafted:other-recipients-share", "p2p"})
+				}
+			}
+		}
 		// whole-message substitutions
 		for _, w := range []string{"previous-round-data", "other-session-data", "other-kind-data", "readdressed-data", "empty-recipient-header"} {
 			if w == "empty-recipient-header" && (m.bcast || m.to == "") {
@@ -196,6 +206,49 @@ func (c *camp) runFault(t *vk.T, P party.ID, f fault, prev []recMsg) (*runResult
 		case "empty-recipient-header":
 			m.To = ""
 			return true
+		case "crafted:own-polynomial-at-zero+empty-recipient", "crafted:other-recipients-share":
+			// the deviating party knows its own polynomial: here it is interpolated from the shares it sends out
+			var xs, ys []*big.Int
+			var otherShare []byte
+			for _, o := range own {
+				if o.round != f.round || o.bcast || o.to == "" {
+					continue
+				}
+				if t, err := adv.Decode(o.data); err == nil {
+					if mm, ok := t.(map[interface{}]interface{}); ok {
+						if b, ok := mm["F_li"].([]byte); ok {
+							xs = append(xs, ref.IDScalar(string(o.to)))
+							ys = append(ys, new(big.Int).SetBytes(b))
+							if o.to != f.to {
+								otherShare = b
+							}
+						}
+					}
+				}
+			}
+			root, err := adv.Decode(m.Data)
+			mm, ok := root.(map[interface{}]interface{})
+			if err != nil || !ok || len(xs) < 2 {
+				return false
+			}
+			if f.mut == "crafted:other-recipients-share" {
+				if otherShare == nil {
+					return false
+				}
+				mm["F_li"] = otherShare
+			} else {
+				v := ref.InterpolateSecret(xs, ys) // f(0) for a degree-1 polynomial from two shares
+				nb := make([]byte, 32)
+				v.FillBytes(nb)
+				mm["F_li"] = nb
+				m.To = ""
+			}
+			b, err := adv.Encode(mm)
+			if err != nil {
+				return false
+			}
+			m.Data = b
+			return true
 		}
 		root, err := adv.Decode(m.Data)
 		if err != nil {
@@ -219,6 +272,12 @@ func (c *camp) runFault(t *vk.T, P party.ID, f fault, prev []recMsg) (*runResult
 		return false
 	}
 	n, err := c.start(t, r.Bytes(4), func(n *sim.Net) {
+		switch r.Intn(4) { // delivery order varies from run to run
+		case 1:
+			n.Sched = sim.SchedRandom
+		case 2:
+			n.Sched = sim.SchedReverse
+		}
 		n.OnEmit = func(_ *sim.Net, from *sim.Party, m *protocol.Message) bool {
 			if tree, err := adv.Decode(m.Data); err == nil && m.RoundNumber > 0 {
 				pool.AddTree(tree)
@@ -231,8 +290,8 @@ func (c *camp) runFault(t *vk.T, P party.ID, f fault, prev []recMsg) (*runResult
 				return true
 			}
 			if f.mode == "echo" || f.mode == "p2p" {
-				if f.mut == "empty-recipient-header" {
-					// the copy on the wire loses its recipient; it is still handed to the intended party only
+				if f.mut == "empty-recipient-header" || strings.HasPrefix(f.mut, "crafted:") {
+					// applied to the copy on the wire, which is still handed to the intended party only
 					return true
 				}
 				res.applied = mutate(m)
@@ -246,8 +305,8 @@ func (c *camp) runFault(t *vk.T, P party.ID, f fault, prev []recMsg) (*runResult
 			if d.From != P || d.Round != f.round || d.Bcast != f.bcast {
 				return []*sim.Delivery{d}
 			}
-			if f.mode == "wire" || f.mut == "empty-recipient-header" {
-				if f.mut != "empty-recipient-header" {
+			if f.mode == "wire" || f.mut == "empty-recipient-header" || strings.HasPrefix(f.mut, "crafted:") {
+				if f.mut != "empty-recipient-header" && !strings.HasPrefix(f.mut, "crafted:") {
 					if victim == "" {
 						victim = d.Target.ID
 					}
